@@ -420,27 +420,24 @@ fn check_hull(pts: &[Point2], hull: &[usize]) -> Result<(), Failure> {
             }
         }
     }
-    // every strict extreme point of the input (own monotone chain) is in the hull
-    let mut idx: Vec<usize> = (0..pts.len()).collect();
-    idx.sort_by(|a, b| pts[*a].x.partial_cmp(&pts[*b].x).unwrap().then(pts[*a].y.partial_cmp(&pts[*b].y).unwrap()));
-    idx.dedup_by(|a, b| pts[*a] == pts[*b]);
-    if idx.len() >= 3 {
-        let mut chain: Vec<usize> = vec![];
-        for pass in 0..2 {
-            let start = chain.len();
-            let it: Box<dyn Iterator<Item = &usize>> = if pass == 0 { Box::new(idx.iter()) } else { Box::new(idx.iter().rev()) };
-            for i in it {
-                while chain.len() >= start + 2 && cross2(&(pts[chain[chain.len() - 1]] - pts[chain[chain.len() - 2]]), &(pts[*i] - pts[chain[chain.len() - 2]])) <= tol {
-                    chain.pop();
+    // Convexity + counter-clockwise order + "no input point outside any hull edge" (above) already say that the
+    // reported polygon is the convex hull within tol, so a separate list of "extreme points that must appear"
+    // adds nothing when h >= 3 (an earlier version built one with a tolerant monotone chain, which is not
+    // transitive and called a point extreme that lies 1e-16 outside a chord: a false alarm of the harness).
+    // What the containment test cannot see is a hull with fewer than three vertices for a genuinely 2D set:
+    if h < 3 && pts.len() >= 3 {
+        let mut best = (0usize, 0usize, -1.0f64);
+        for i in 0..pts.len() {
+            for j in i + 1..pts.len() {
+                let d = (pts[i] - pts[j]).norm();
+                if d > best.2 {
+                    best = (i, j, d);
                 }
-                chain.push(*i);
             }
-            chain.pop();
         }
-        for e in chain {
-            let ok = hull.iter().any(|i| pts[*i] == pts[e]);
-            crate::ensure_r!(ok, "C15/hull/extreme_point_missing", "extreme point {e} {:?} is not on the hull {:?}", pts[e], hull);
-        }
+        let (a, b) = (pts[best.0], pts[best.1]);
+        let spread = pts.iter().map(|p| cross2(&(b - a), &(p - a)).abs()).fold(0.0f64, f64::max);
+        crate::ensure_r!(spread <= 1e3 * tol, "C15/hull/degenerate_for_2d_set", "hull has {h} vertices but the points span an area (max cross {spread:e})");
     }
     Ok(())
 }
